@@ -55,7 +55,19 @@ def _required():
            "sched_overdue_section_const", "sched_overdue_tokens_before_composite_rps", "sched_rps_overdue_sections_then_once",
            "sched_overdue_tokens_with_gradual_startup", "sched_overdue_tokens_to_discard_and_late_tokens_to_shoot",
            "sched_overdue_tokens_to_discard_with_pooled_ammo", "shots_discarded_as_overflow",
-           "shots_discarded_and_shots_overlap", "shots_discarded_with_pooled_ammo"]
+           "shots_discarded_and_shots_overlap", "shots_discarded_with_pooled_ammo",
+           # requests that exceed the 4 KiB the standard library's readers buffer (after seeded defect C11/m10)
+           "obj_http_big_body", "obj_http_big_body_fmt_raw", "obj_http_big_body_fmt_uripost", "obj_http_big_body_fmt_jsonline",
+           "obj_http_big_body_streamed", "obj_http_big_body_preloaded", "obj_http_big_body_raw_streamed",
+           "obj_http_big_body_differs_per_entry", "obj_http_big_body_differs_per_entry_streamed_raw", "obj_http_big_header",
+           "obj_http_big_body_with_date_middleware", "big_body_shots_overlap", "big_body_shots_overlap_streamed_raw",
+           "big_body_shots_overlap_streamed_differing_entries",
+           # phout `sample-queue-size`, instances that start late and storms of discarded shots around the aggregators'
+           # periodic flush (after seeded defect C11/m11)
+           "phout_sample_queue_1", "phout_sample_queue_2", "phout_sample_queue_16", "phout_small_queue_and_shots_overlap",
+           "sched_startup_delayed", "sched_discard_storm", "sched_discard_storm_agg_phout",
+           "sched_discard_storm_after_delayed_startup_phout_small_queue", "run_longer_than_flush_period",
+           "discards_reported_across_periodic_flush", "discards_reported_across_periodic_flush_phout_small_queue"]
     cls += ["obj_http_" + c for c in per_scen] + ["obj_grpc_" + c for c in per_scen]
     dropped = set()
     for fid in _known_ids():
@@ -83,7 +95,7 @@ SPEC = {
              "hold fewer tokens than there are ammo, so every instance asks the one schedule object for Left and Next while other "
              "instances move it on to its next section, and the last section outlasts the ammo limit; otherwise one `once` section. "
              "Instances start all at once or (4 cases of 10) gradually over a few ms: a composite of once / const / pause sections or "
-             "instance_step (from 0 included). The pool option `discard_overflow` is always named, true in 6 cases of 10. In 4 cases of "
+             "instance_step (from 0 included). In 1 case of 10 the startup schedule begins with a pause of 1-40 ms. The pool option `discard_overflow` is always named, true in 6 cases of 10. In 4 cases of "
              "10 (7 of 10 for grpc/json, the provider that recycles its ammo objects through a pool) the shared rps schedule is started "
              "2.2-4 s in the past (core.Schedule.Start with an earlier time, which the interface allows once before the first Next): "
              "1-2 bursts of tokens (`once`, or `const` over 1-50 ms, pauses between them) holding up to half of the ammo are due 2 s or "
@@ -92,7 +104,21 @@ SPEC = {
              "slower than the schedule do, without any real waiting: with discard_overflow (4 of 5 such cases) the tokens that are 2 s "
              "overdue are discarded - the acquired ammo goes back to the provider unused while other instances shoot - otherwise they "
              "are shot at once. The number of discarded shots is measured (ammo acquired minus shots the gun probes counted; on a "
-             "stalled machine instances fall 2 s behind any schedule) and all counts are judged against it. Scenarios are built from switches, one per shared "
+             "stalled machine instances fall 2 s behind any schedule) and all counts are judged against it. Plain http ammo with bodies (uripost, raw, http/json; raw is drawn twice as often as the others) carry in "
+             "half of the cases (raw: 3 of 4) bodies of 5-30 KiB plus 101 bytes per entry index, filled with a letter of the entry's own "
+             "after a short head, raw and http/json entries in 4 cases of 10 also a header of 700-5000 such letters: requests that exceed "
+             "the 4 KiB the standard library's readers buffer, so that most of the body is read from the decoded ammo's memory only "
+             "while the gun sends it - after the instance acquired it and while the provider goroutine decodes the following entries "
+             "for the other instances; the target compares every byte of body and header with the entry the URI names. The phout "
+             "aggregator gets `sample-queue-size` 1, 2 or 16 in 3 cases of 10 (a full queue makes Report wait for the aggregator's "
+             "goroutine; the jsonlines reporter drops samples when its queue is full - by design, so its queue is left alone). In 6 cases "
+             "of 100 the run is a storm of discarded shots that lasts across the aggregators' 1 s flush period: the startup schedule "
+             "begins with a pause of 850-940 ms, then the instances start and find 9-24 thousand tokens of the shared rps schedule "
+             "(started 2.2-4 s in the past; one `once`, one `const` over 1-50 ms, or two bursts) overdue by more than 2 s; with "
+             "discard_overflow they drop them one after the other - acquire, give back, report the `discarded` sample - as fast as the "
+             "provider hands the ammo out, which takes beyond the 1 s mark (120 tokens per ms up to the mark and 2-6 thousand more; "
+             "measured: the times of the first and the last discarded acquisition), then the ammo of the case itself are shot as in any "
+             "other case; 8 of 10 storms report to phout, 5 of 6 of those with `sample-queue-size` 1, 2 or 16. Scenarios are built from switches, one per shared "
              "object: preprocessor row mapping source.users[next|rand|last] on a file/csv or file/json source, [next|rand|last] indexing "
              "of an array taken from an earlier response, randInt / randString / uuid as template functions and as preprocessor "
              "functions, a `variables` source with randomised values, header / metadata maps (none, constants, templates), var/jsonpath, "
@@ -116,7 +142,14 @@ SPEC = {
                # classes added after seeded defect C11/m7 (discard_overflow drops shots of instances that are behind the schedule)
                _T + "/sched_rps_started_in_the_past": 0.25, _T + "/sched_overdue_tokens_to_discard": 0.15,
                _T + "/sched_overdue_tokens_to_shoot_late": 0.03, _T + "/shots_discarded_as_overflow": 0.15,
-               _T + "/shots_discarded_and_shots_overlap": 0.12, _T + "/shots_discarded_with_pooled_ammo": 0.012},
+               _T + "/shots_discarded_and_shots_overlap": 0.12, _T + "/shots_discarded_with_pooled_ammo": 0.012,
+               # classes added after seeded defect C11/m10 (ammo memory refilled while the request built from it is being sent)
+               _T + "/obj_http_big_body": 0.06, _T + "/obj_http_big_body_raw_streamed": 0.012,
+               _T + "/big_body_shots_overlap": 0.05, _T + "/big_body_shots_overlap_streamed_raw": 0.01,
+               # classes added after seeded defect C11/m11 (phout flushes periodically while instances find the sample queue full)
+               _T + "/phout_small_queue_and_shots_overlap": 0.08, _T + "/sched_discard_storm": 0.02,
+               _T + "/discards_reported_across_periodic_flush": 0.015,
+               _T + "/discards_reported_across_periodic_flush_phout_small_queue": 0.008},
     "required_classes": _required(),
     "manifest": {
         "technique": ("property testing (rapid) under the Go race detector: generated pool configurations run by the real engine in a child "
@@ -138,7 +171,11 @@ SPEC = {
                  "postprocessors reject no further step of that invocation arrives and the request total is the one of the dropped "
                  "invocations; with the header/date middleware every request arrives with exactly one well-formed value of the stamped "
                  "header (what other deliveries of the same preloaded / array ammo were stamped with never arrives), and the decoded "
-                 "ammo kept by the provider or by the http/json array decoder are unchanged by the run."),
+                 "ammo kept by the provider or by the http/json array decoder are unchanged by the run; every request of a plain http "
+                 "pool arrives with exactly the body and the headers of the entry its URI names, byte by byte - also bodies of tens of "
+                 "KiB, which the gun is still reading from the ammo while other instances acquire theirs; with a phout "
+                 "`sample-queue-size` as small as 1 and all instances reporting discarded shots at full speed while the aggregator "
+                 "flushes periodically, the run ends without error, without a race report and every sample is one well-formed line."),
         "note": ("Race freedom is established only on the schedules that occurred (each case runs the pool twice; a failing case and its "
                  "shrink candidates are re-run up to 12 times). The race detector only sees accesses that are unordered by "
                  "happens-before; the engine's own atomic counters order whole shots, so only shots that really overlap in time can "
